@@ -495,9 +495,10 @@ impl C03 {
     /// Expression temporaries far larger than anything a variable can hold: every use must end in a
     /// value or a BASIC error.
     fn big_temp_case(&self, rng: &mut Rng, ctx: &mut Ctx) {
-        let terms = rng.range(2, 300) as usize;
-        let unit = *rng.pick(&["é", "x", "→", "Z"]);
         let stmt = *rng.pick(&BIG_TEMP_STATEMENTS[..]);
+        // VAL tries ever shorter prefixes (quadratic): keep its operand moderate, slowness is not a verdict here
+        let terms = if stmt.contains("VAL(") { rng.range(2, 30) as usize } else { rng.range(2, 300) as usize };
+        let unit = *rng.pick(&["é", "x", "→", "Z"]);
         let mut t = String::new();
         for i in 0..terms {
             if i > 0 {
